@@ -372,6 +372,7 @@ func (x *Exec) mapComps(T *types.Map) (hasKey, hasSort, valKey, valSort string) 
 // havocHeap replaces every heap component by a fresh array (the effect of an
 // unknown callee).  Escaped cells are havocked too.
 func (x *Exec) havocHeap(st *State, why string) {
+	x.note("heap havoc: %s", why)
 	// objects declared private to the verified function keep their fields
 	type keep struct {
 		key string
